@@ -8,3 +8,8 @@ pub fn write_u64v_le(dst: &mut [u8], input: &[u64])
 pub fn zero(dst: &mut [u8])
     ensures final(dst)@ == zeros(old(dst).len() as int)
 { unimplemented!() }
+#[verifier::external_body]
+pub fn read_u64v_le(dst: &mut [u64], input: &[u8])
+    requires old(dst).len() * 8 == input.len(), old(dst).len() == 16
+    ensures final(dst)@ == words_of(input@)
+{ unimplemented!() }
